@@ -5,11 +5,14 @@
   front of the remaining input is invisible to the lexer (`C08_trivia_prefix_invisible*`,
   in `C08_trivia.lean`, for the rule tables regenerated from /repo); the order facts about
   the rule table that trivia handling relies on; trivia pieces never contribute tokens.
-  Not proved: that a token's lexeme followed by trivia lexes as that token (the other half
-  of the full round-trip), which is tied by correspondence.
+  and (`C08_roundtrip.lean`) for all 30 token kinds a lexeme followed by a separator lexes as
+  exactly that token, hence `C08_roundtrip` / `C07_lex_complete`: every admissible rendering
+  of a token list lexes back to exactly those tokens, and `C08_trivia_invariant`: two
+  admissible renderings of the same tokens with different trivia lex identically.
 -/
 import Pyab.Proofs.LexNoSkip
 import Pyab.Properties.C08_trivia
+import Pyab.Properties.C08_roundtrip
 import Pyab.Generated.LexRules
 namespace Pyab.Properties
 open Pyab
